@@ -320,6 +320,22 @@ class Ctx:
                 z.append(m.group(1))
         return z
 
+    def prove(self, module, timeout=600):
+        """Unbounded facts about pure operators: every proof obligation of the module must be discharged by TLAPS (tlapm).
+        A failed or missing proof is a failure of the machinery (exit 2) - it is a statement about the specification."""
+        t = time.time()
+        try:
+            p = subprocess.run(["tlapm", "--threads", "8", "--cleanfp", module + ".tla"], cwd=self.specdir(), stdout=subprocess.PIPE, stderr=subprocess.STDOUT,
+                               text=True, errors="replace", timeout=timeout)
+        except (OSError, subprocess.TimeoutExpired) as x:
+            raise Infra("tlapm %s: %s" % (module, x))
+        m = re.search(r"All (\d+) obligations? proved", p.stdout)
+        log("[tlapm] %s: %s, %.1fs" % (module, m.group(0) if m else "NOT PROVED", time.time() - t))
+        if not m or p.returncode != 0:
+            raise Infra("TLAPS did not prove every obligation of %s:\n%s" % (module, p.stdout[-3000:]))
+        self.extra.setdefault("tlaps_obligations_proved", {})[module] = int(m.group(1))
+        return int(m.group(1))
+
     def model_check(self, module, cfg=None, **kw):
         """Leg M: exhaustive check of a bounded instance; a violated property of the *design* is
         an infrastructure-level failure of the check (the model is supposed to describe the
